@@ -1,14 +1,20 @@
 #!/bin/sh
 # re-run the property's check against every stored seeded change (scratch worktree, VERIF_REPO) and refresh meta.json
+# usage: tools/seedrecheck.sh [-j N]   (N seeds at a time, default 4; each check then uses 16/N worker processes)
 cd /verif
-for d in seeded/C*/; do
-  n=$(basename $d); p=$(python3 -c "import json;print(json.load(open('$d/meta.json'))['property'])")
+one() {
+  d=$1; n=$(basename $d); p=$(python3 -c "import json;print(json.load(open('$d/meta.json'))['property'])")
   keepnotes=$(mktemp -d); cp $d/patch.diff $d/demo.py $keepnotes/; python3 -c "
 import json; m=json.load(open('$d/meta.json')); open('$keepnotes/notes.md','w').write(m.get('needs_to_manifest',''))"
-  timeout 2400 python3 tools/seedcheck.py $p $keepnotes --name $n --keep $1 2>&1 | python3 -c "
+  timeout 3000 python3 tools/seedcheck.py $p $keepnotes --name $n --keep 2>&1 | python3 -c "
 import json,sys
 try:
     d=json.load(sys.stdin); print(d['name'], 'confirmed', d['confirmed'], {k:(v['caught'], v['rc']) for k,v in d['checks'].items()})
 except Exception as e: print('$n unparsable', e)"
   rm -rf $keepnotes
-done
+}
+if [ "$1" = "--one" ]; then one $2; exit 0; fi
+J=4; [ "$1" = "-j" ] && J=$2
+W=$((16 / J)); [ $W -lt 2 ] && W=2
+ls -d seeded/C*/ | VERIF_WORKERS=$W xargs -P $J -n 1 sh tools/seedrecheck.sh --one
+python3 tools/seedreadme.py
